@@ -14,6 +14,16 @@
          with the "wrong" unit and without a unit, and every forwarding method
   cls  : every (attribute name, form, version) of a pool × all forms × versions 2..5 → LocationParser classification
   raw  : damaged sections / random offsets → model vs code only (errors included)
+  info : END TO END from section bytes: the units / debugging entries of a `sec` case are turned into a forest DESCRIPTION
+         (C04's format: abbreviation tables with gaps and padded codes, trees, DW_FORM_indirect chains around list-capable
+         forms, DW_FORM_implicit_const / DW_FORM_string bystanders, padded null entries); .debug_info / .debug_abbrev come
+         from the Lean Spec encoders and the composed model (Model/ListsInfo: C04's DIE model + the list code) decodes them
+         itself.  Observed: what the list code sees of .debug_info (name, form, raw value per entry: impl == description ==
+         model), iter_location_lists / iter_range_lists, value + parse_from_attribute / get_range_list_at_offset per reference
+  expr : C07 × C12: well-formed operation sequences (C12's generator and Spec assembler) become the expressions of the
+         entries of a .debug_loc list / the counted location descriptions of a .debug_loclists list; the list is fetched with
+         the real library and EVERY entry's loc_expr is parsed with the real DWARFExprParser: == the encoded operations
+         (Props/C07 location_expr_ops_exact) and == C12's model on those bytes
 """
 import io, struct
 from common import run_impl, canon, hx, rnd_uint, rnd_bytes, uleb, sleb
@@ -25,8 +35,9 @@ RULE = ('v4: entry kind, address (boundary pools), expression length 0..300/6553
         'pair: both sections present, units of mixed versions in either order, fetch for the right / wrong / no unit, '
         'every forwarding method; raw: byte flips / truncations of valid sections and random offsets. Non-trivial = distinct (call, case).')
 ASSUMPTIONS = ['io.BytesIO read/seek/tell semantics', 'struct.unpack for <>BHIQ',
-               'DIE decoding (abbreviations, forms other than loclistx/rnglistx) is the subject of other properties: '
-               'the model receives the (name, form, raw value) triples the harness assembled into .debug_info',
+               'streams sec / pair / raw: the model receives the (name, form, raw value) triples the harness assembled into '
+               '.debug_info (DIE decoding is C04); stream info closes that interface: the composed model decodes the '
+               'Spec-encoded .debug_info itself (Props/C07 debug_info_cus_exact, enumeration_exact_*_info)',
                'the unit address size equals the container default address size (DWARFInfo hands its own structs to the list objects)']
 FINDINGS = {}
 
@@ -455,6 +466,269 @@ def check(ctx, stream, case, impl, model, expect=None, wf=True):
         out.violation('correspondence', stream, case, got=impl, model=model)
 
 
+
+# --------------------------------------------------------------------------- info: end to end through .debug_info
+FORM_OP = {'DW_FORM_data1': 'nat', 'DW_FORM_data2': 'nat', 'DW_FORM_data4': 'nat', 'DW_FORM_data8': 'nat',
+           'DW_FORM_sec_offset': 'nat', 'DW_FORM_addr': 'nat', 'DW_FORM_udata': 'uleb', 'DW_FORM_loclistx': 'uleb',
+           'DW_FORM_rnglistx': 'uleb', 'DW_FORM_sdata': 'sleb', 'DW_FORM_exprloc': 'blocku', 'DW_FORM_block': 'blocku',
+           'DW_FORM_block1': 'block', 'DW_FORM_block2': 'block', 'DW_FORM_block4': 'block'}
+INDIRECT_OK = ('DW_FORM_data1', 'DW_FORM_data2', 'DW_FORM_data4', 'DW_FORM_data8', 'DW_FORM_sec_offset', 'DW_FORM_loclistx',
+               'DW_FORM_rnglistx', 'DW_FORM_exprloc', 'DW_FORM_block1')
+BASE_ATTRS = ('DW_AT_addr_base', 'DW_AT_loclists_base', 'DW_AT_rnglists_base')
+
+
+def uleb_len(v):
+    return max(1, (v.bit_length() + 6) // 7)
+
+
+def forest_of_cus(rng, cus):
+    """the units of `gen_cus` as a forest description (C04's request format); the entry order — top entry, its children,
+    the closing null entry — is the one `refs` index into"""
+    from elftools.dwarf.enums import ENUM_DW_AT, ENUM_DW_FORM
+    abbrevs, units = [], []
+    for cu in cus:
+        decls, nodes = [], []
+        dies = cu['dies']
+        for i, die in enumerate(dies):
+            code = i + 1 if rng.random() < 0.8 else 200 + 7 * i
+            specs, attrs = [], []
+            die = list(die)
+            if rng.random() < 0.25:
+                die.insert(rng.randrange(len(die) + 1), ('DW_AT_name', 'DW_FORM_string', rnd_bytes(rng, rng.choice([0, 1, 5])).replace(b'\0', b'x')))
+            if cu['version'] >= 5 and rng.random() < 0.2:
+                die.insert(rng.randrange(len(die) + 1), ('DW_AT_decl_line', 'DW_FORM_implicit_const', rng.choice([0, 1, -1, 63, -64, 1000])))
+            for name, form, raw in die:
+                an, fc = ENUM_DW_AT[name], ENUM_DW_FORM[form]
+                spec = {'name': an, 'form': fc, 'nl': uleb_len(an) + rng.choice([0, 0, 0, 1])}
+                a = {'form': fc}
+                if form == 'DW_FORM_implicit_const':
+                    spec['const'] = raw
+                    spec['cl'] = 2 + rng.choice([0, 1])
+                    a['op'] = ['implicit']
+                elif form == 'DW_FORM_string':
+                    a['op'] = ['str', hx(raw)]
+                else:
+                    k = FORM_OP[form]
+                    if k == 'nat':
+                        a['op'] = ['nat', raw]
+                    elif k == 'uleb':
+                        a['op'] = ['uleb', uleb_len(raw) + rng.choice([0, 0, 1, 2]), raw]
+                    elif k == 'sleb':
+                        a['op'] = ['sleb', 10, raw]
+                    elif k == 'blocku':
+                        a['op'] = ['blocku', uleb_len(len(raw)) + rng.choice([0, 0, 1]), hx(bytes(raw))]
+                    else:
+                        a['op'] = ['block', hx(bytes(raw))]
+                    if form in INDIRECT_OK and name not in BASE_ATTRS and rng.random() < 0.2:
+                        # DW_FORM_indirect: the final form stands in the entry, behind 0..1 further DW_FORM_indirect codes
+                        spec['form'] = ENUM_DW_FORM['DW_FORM_indirect']
+                        a['ind'] = [1 + rng.choice([0, 0, 1])] * rng.choice([1, 1, 2])
+                specs.append(spec)
+                attrs.append(a)
+            decls.append({'code': code, 'cl': uleb_len(code) + rng.choice([0, 0, 1]), 'tag': 0x11 if i == 0 else 0x34,
+                          'children': i == 0 and len(dies) > 1, 'specs': specs})
+            nodes.append({'code': code, 'cl': uleb_len(code) + rng.choice([0, 0, 2]), 'attrs': attrs})
+        tree = dict(nodes[0], kids=nodes[1:], nl=rng.choice([1, 1, 2, 3]))
+        abbrevs.append({'decls': decls, 'gap': hx(rnd_bytes(rng, rng.choice([0, 0, 1, 5]))), 'end_len': rng.choice([1, 1, 2])})
+        units.append({'fmt64': cu['fmt64'], 'version': cu['version'], 'asz': cu['asz'], 'table': len(abbrevs) - 1, 'tree': tree})
+    return abbrevs, units
+
+
+class InfoWorld(World):
+    """sections + DWARFInfo for one `info` case: .debug_info / .debug_abbrev are the Lean Spec encodings"""
+
+    def __init__(self, c, data, addr, info, abbrev):
+        self.c, self.data, self.addr = c, data, addr
+        what, ver, le, asz = c['what'], c['ver'], c['le'], c['asz']
+        key = {('loc', True): 'loclists', ('loc', False): 'loc', ('rng', True): 'rnglists', ('rng', False): 'ranges'}[(what, ver >= 5)]
+        self.di = mk_dwarf(le, asz, info=info, abbrev=abbrev, addr=addr, **{key: data})
+        self.lists = self.di.location_lists() if what == 'loc' else self.di.range_lists()
+        self._cus = None
+
+    def impl(self, call, **kw):
+        if call == 'cus':
+            out = []
+            for cu in self.di.iter_CUs():
+                out.append({'version': cu['version'], 'asz': cu['address_size'], 'fmt': cu.structs.dwarf_format,
+                            'dies': [[[a.name if isinstance(a.name, str) else str(a.name),
+                                       a.form if isinstance(a.form, str) else str(a.form), cn(a.raw_value)]
+                                      for a in die.attributes.values()] for die in cu.iter_DIEs()]})
+            return out
+        return World.impl(self, call, **kw)
+
+
+def info_request(c, data, addr, abbrevs, units, calls):
+    secs = {}
+    if addr is not None:
+        secs['addr'] = hx(addr)
+    if c['ver'] >= 5:
+        secs['loclists' if c['what'] == 'loc' else 'rnglists'] = hx(data)
+    return {'p': P, 'k': 'info', 'what': c['what'], 'ver': c['ver'], 'le': c['le'], 'asz': c['asz'], 'hex': hx(data),
+            'abbrevs': abbrevs, 'units': units, 'secs': secs,
+            'calls': [dict(kw, call=call) for call, kw in calls]}
+
+
+def info_calls(c, r, cus, refs):
+    """[(call, kwargs, expect or None, wf)]: the enumeration and every reference, as in `sec`"""
+    out = []
+    for call, kw, exp, wf in sec_calls(c, r, cus, refs):
+        if call in ('iter', 'attr'):
+            out.append((call, {k: v for k, v in kw.items() if k != 'disturb'}, exp, wf))
+    return out
+
+
+def run_info(ctx):
+    rng = ctx.rng('info')
+    cases = [gen_case(rng) for _ in range(ctx.budget(350, 6000))]
+    replies = ctx.driver.ask_many(cases)
+    todo, reqs = [], []
+    for c, r in zip(cases, replies):
+        if 'fatal' in r:
+            raise RuntimeError('driver: %s on %r' % (r['fatal'], str(c)[:400]))
+        data = bytes.fromhex(r['bytes'])
+        addr_pre = rng.choice([0, 8, 8, 12, 16])
+        addr = rnd_bytes(rng, addr_pre) + bytes.fromhex(r['addrbytes']) + rnd_bytes(rng, rng.choice([0, 3]))
+        cus, refs = gen_cus(rng, c, r, addr_pre)
+        if not cus:
+            continue
+        abbrevs, units = forest_of_cus(rng, cus)
+        calls = info_calls(c, r, cus, refs)
+        addr = addr if c['ver'] >= 5 else None
+        todo.append((c, data, addr, abbrevs, units, calls))
+        reqs.append(info_request(c, data, addr, abbrevs, units, [('cus', {})] + [(call, kw) for call, kw, _, _ in calls]))
+    for (c, data, addr, abbrevs, units, calls), rq, m in zip(todo, reqs, ctx.driver.ask_many(reqs)):
+        if 'fatal' in m:
+            raise RuntimeError('driver: %s on info %r' % (m['fatal'], str(rq)[:600]))
+        info_compare(ctx, c, data, addr, abbrevs, units, calls, m)
+
+
+def info_compare(ctx, c, data, addr, abbrevs, units, calls, m, replaying=None):
+    """compare one info case; with `replaying` = (call, kw) return (impl, expect, model, fails) of that call instead"""
+    w = InfoWorld(c, data, addr, bytes.fromhex(m['info']), bytes.fromhex(m['abbrev']))
+    wf0 = m['wf']
+    allcalls = [('cus', {}, m['cus'], wf0)] + [(call, kw, exp, wf and wf0) for call, kw, exp, wf in calls]
+    if replaying is None:
+        ctx.out.count('info:%s:v%d:%s' % (c['what'], c['ver'], 'wf' if wf0 else 'notwf'))
+        for u in units:
+            ctx.out.count('info:unit:v%d:%s' % (u['version'], 'fmt64' if u['fmt64'] else 'fmt32'))
+            for n in [u['tree']] + u['tree']['kids']:
+                for a in n['attrs']:
+                    ctx.out.count('info:attr:form%#x%s' % (a['form'], ':indirect%d' % len(a['ind']) if a.get('ind') else ''))
+    for (call, kw, exp, wf), model in zip(allcalls, m['models']):
+        impl = run_impl(lambda: w.impl(call, **kw))
+        if replaying is not None:
+            if replaying == (call, kw):
+                fails = impl != model or (exp is not None and wf and impl != {'ok': exp})
+                return impl, exp, model, fails
+            continue
+        ctx.out.count('info:call:%s:%s' % (call, 'ok' if 'ok' in impl else 'err'))
+        case = {'asm': c, 'addr': hx(addr) if addr is not None else None, 'data': hx(data), 'abbrevs': abbrevs, 'units': units,
+                'calls': [[cl, k2, e2, w2] for cl, k2, e2, w2 in calls], 'call': call, 'kw': kw}
+        check(ctx, 'info', case, impl, model, exp, wf)
+    return None
+
+
+
+# --------------------------------------------------------------------------- expr: expressions inside location entries
+def run_expr(ctx):
+    from props import c12
+    rng = ctx.rng('expr')
+    sigs = {}
+    todo = []
+    for _ in range(ctx.budget(160, 3000)):
+        le, asz, ver = rng.random() < 0.5, rng.choice([4, 8]), rng.choice([2, 3, 4, 5, 5])
+        cfg = c12.cfg_list(le, 32, asz, ver)           # the structs a DWARFInfo hands out: DWARF32, default address size
+        if tuple(cfg) not in sigs:
+            sigs[tuple(cfg)] = c12.get_sig(ctx, cfg)
+        exprs = []
+        for _k in range(rng.choice([1, 1, 2, 3])):
+            ops = c12.rnd_ops(rng, sigs[tuple(cfg)], rng.choice([0, 1, 1, 2, 3, 8]), rng.randrange(0, 3), blob_cap=24)
+            c12.fix_entry_lengths(ops, rng)
+            exprs.append(ops)
+        todo.append((cfg, exprs))
+    flat = [(cfg, ops) for cfg, exprs in todo for ops in exprs]
+    areps = ctx.driver.ask_many([{'p': 'C12', 'k': 'ast', 'cfg': cfg, 'ops': ops} for cfg, ops in flat])
+    it = iter(areps)
+    reqs, metas = [], []
+    for cfg, exprs in todo:
+        rs = [next(it) for _ in exprs]
+        for r in rs:
+            if 'fatal' in r:
+                raise RuntimeError('driver: %s' % r['fatal'])
+        le, _, asz, ver = cfg
+        if any((not r['wf']) or len(r['bytes']) // 2 >= 65536 for r in rs):
+            ctx.out.count('expr:notwf')
+            continue
+        if ver < 5:
+            ents = []
+            for r in rs:
+                if rng.random() < 0.3:
+                    ents.append(['base', rnd_addr(rng, asz)])
+                ents.append(['loc', 1 + rng.randrange(1000), 1 + rng.randrange(1000), r['bytes']])
+            rq = {'p': P, 'k': 'v4', 'what': 'loc', 'le': le, 'asz': asz, 'pre': hx(rnd_bytes(rng, rng.choice([0, 3, 16]))),
+                  'rest': hx(rnd_bytes(rng, rng.choice([0, 5]))), 'entries': ents}
+        else:
+            ents = []
+            for r in rs:
+                x = bytes.fromhex(r['bytes'])
+                cl = ['c', uleb_len(len(x)) + rng.choice([0, 0, 1]), r['bytes']]
+                code = rng.choice([4, 5, 7, 8])
+                vals = {4: lambda: [U(rng, 1), U(rng, 9), cl], 5: lambda: [cl],
+                        7: lambda: [['a', rnd_addr(rng, asz)], ['a', rnd_addr(rng, asz)], cl],
+                        8: lambda: [['a', rnd_addr(rng, asz)], U(rng, 77), cl]}[code]()
+                ents.append({'code': code, 'vals': vals})
+            rq = {'p': P, 'k': 'asm', 'what': 'loc', 'ver': 5, 'le': le, 'asz': asz, 'addrs': [],
+                  'units': [{'fmt64': rng.random() < 0.4, 'segsz': 0, 'noff': 0, 'items': [{'t': 'list', 'entries': ents}]}]}
+        reqs.append(rq)
+        metas.append((cfg, rs, rq))
+    for (cfg, rs, rq), r in zip(metas, ctx.driver.ask_many(reqs)):
+        if 'fatal' in r:
+            raise RuntimeError('driver: %s on %r' % (r['fatal'], str(rq)[:300]))
+        expr_compare(ctx, cfg, rs, rq, r)
+
+
+def expr_fetch(cfg, rq, r):
+    """the real library: the list, then every entry's expression through the real parser"""
+    from props import c12
+    le, _, asz, ver = cfg
+    data = bytes.fromhex(r['bytes'])
+    if ver < 5:
+        di = mk_dwarf(le, asz, loc=data)
+        lst = di.location_lists().get_location_list_at_offset(r['pos'])
+        exp_list = r['expect']
+    else:
+        info, abbrev = build_info([{'version': 5, 'fmt64': False, 'asz': asz, 'dies': [[('DW_AT_low_pc', 'DW_FORM_addr', 0)]]}], le)
+        di = mk_dwarf(le, asz, info=info, abbrev=abbrev, loclists=data, addr=b'')
+        it = r['units'][0]['items'][0]
+        lst = di.location_lists().get_location_list_at_offset(it['off'], next(di.iter_CUs()).get_top_DIE())
+        exp_list = it['tr']
+    parser = c12.parser_for(cfg)
+    ops = [c12.canon_ops(parser.parse_expr(e.loc_expr)) for e in lst if hasattr(e, 'loc_expr')]
+    return {'list': cn(lst), 'ops': ops}, exp_list
+
+
+def expr_compare(ctx, cfg, rs, rq, r, replaying=False):
+    holder = {}
+
+    def go():
+        got, exp_list = expr_fetch(cfg, rq, r)
+        holder['exp_list'] = exp_list
+        return got
+    impl = run_impl(go)
+    if 'exp_list' not in holder:
+        holder['exp_list'] = None
+    expect = {'list': holder['exp_list'], 'ops': [x['expect'] for x in rs]}
+    mlist = r['model'].get('ok') if isinstance(r.get('model'), dict) else holder['exp_list']     # `v4` replies carry the list model
+    model = {'ok': {'list': mlist, 'ops': [x['model']['ok'] if 'ok' in x['model'] else x['model'] for x in rs]}}
+    if replaying:
+        return impl, expect, model, (impl != {'ok': expect} or impl != model)
+    ctx.out.count('expr:v%d:asz%d:%s' % (cfg[3], cfg[2], 'ok' if 'ok' in impl else 'err'))
+    for x in rs:
+        ctx.out.count('expr:ops:%s' % ('0' if not x['expect'] else '1-3' if len(x['expect']) <= 3 else '4+'))
+    case = {'cfg': cfg, 'rs': [{'bytes': x['bytes'], 'expect': x['expect'], 'model': x['model']} for x in rs], 'req': rq}
+    check(ctx, 'expr', case, impl, model, expect, True)
+
+
 # --------------------------------------------------------------------------- streams
 def run_v4(ctx):
     rng = ctx.rng('v4')
@@ -758,6 +1032,8 @@ def run(ctx):
     run_sec(ctx)
     run_pair(ctx)
     run_raw(ctx)
+    run_info(ctx)
+    run_expr(ctx)
 
 
 # --------------------------------------------------------------------------- replay
@@ -778,6 +1054,20 @@ def replay(ctx, payload):
         exp = {'cls': r['expect'], 'has': r['expect'] != 'neither'}
         model = {'ok': {'cls': r['model'], 'has': r['model_has_location']}}
         res.update(impl=impl, expect=exp, model=model, fails=(impl != {'ok': exp} or impl != model))
+    elif stream == 'expr':
+        r = ctx.driver.ask(case['req'])
+        impl, exp, model, fails = expr_compare(ctx, case['cfg'], case['rs'], case['req'], r, replaying=True)
+        res.update(impl=impl, expect=exp, model=model, fails=fails)
+    elif stream == 'info':
+        c = case['asm']
+        data = bytes.fromhex(case['data'])
+        addr = bytes.fromhex(case['addr']) if case.get('addr') is not None else None
+        calls = [(cl, kw, exp, wf) for cl, kw, exp, wf in case['calls']]
+        rq = info_request(c, data, addr, case['abbrevs'], case['units'], [('cus', {})] + [(cl, kw) for cl, kw, _, _ in calls])
+        m = ctx.driver.ask(rq)
+        impl, exp, model, fails = info_compare(ctx, c, data, addr, case['abbrevs'], case['units'], calls, m,
+                                               replaying=(case['call'], case['kw']))
+        res.update(impl=impl, expect=exp, model=model, fails=fails)
     elif stream == 'pair':
         cus = [dict(cu, dies=[[tuple(a) for a in die] for die in cu['dies']]) for cu in case['cus']]
         w, r4, r5 = pair_world(ctx, dict(case, cus=cus))
